@@ -209,6 +209,8 @@ struct BlockingHandleInner<BS: BlockingCmdTaskSender> {
 impl<BS: BlockingCmdTaskSender> BlockingHandleInner<BS> {
     fn release_all(&self) {
         loop {
+            #[cfg(undermoon_verif)]
+            crate::common::verif_sched::point("try_recv");
             let cmd_task = match self.queue_receiver.try_recv() {
                 Ok(cmd_task) => cmd_task,
                 Err(err) => {
@@ -218,6 +220,8 @@ impl<BS: BlockingCmdTaskSender> BlockingHandleInner<BS> {
                     return;
                 }
             };
+            #[cfg(undermoon_verif)]
+            crate::common::verif_sched::point("redispatch");
             if let Err(err) = self.blocking_task_sender.send(cmd_task) {
                 error!(
                     "failed to send task when releasing blocking queue: {:?}",
@@ -299,6 +303,8 @@ where
             };
             if !blocking {
                 let counter_task = CounterTask::new(cmd_task, self.running_cmd.clone());
+                #[cfg(undermoon_verif)]
+                crate::common::verif_sched::point("handoff");
                 return self.inner_sender.send(counter_task).map_err(|err| {
                     err.map_task(|task| BlockingHintTask::new(task.into_inner(), cmd_blocking_hint))
                 });
@@ -312,6 +318,8 @@ where
         }
         drop(counter);
 
+        #[cfg(undermoon_verif)]
+        crate::common::verif_sched::point("enqueue");
         if let Err(err) = self.queue_sender.send(cmd_task) {
             let cmd_task = err.into_inner();
             cmd_task.set_resp_result(Ok(Resp::Error(
@@ -337,6 +345,8 @@ where
     type Sender = BS;
 
     fn blocking_done(&self) -> bool {
+        #[cfg(undermoon_verif)]
+        crate::common::verif_sched::point("done_load");
         self.running_cmd.load(Ordering::SeqCst) == 0
     }
 
@@ -420,6 +430,8 @@ struct AutoCounter(Arc<AtomicI64>);
 
 impl AutoCounter {
     fn new(counter: Arc<AtomicI64>) -> Self {
+        #[cfg(undermoon_verif)]
+        crate::common::verif_sched::point("task_inc");
         counter.fetch_add(1, Ordering::SeqCst);
         Self(counter)
     }
@@ -428,6 +440,8 @@ impl AutoCounter {
 impl Drop for AutoCounter {
     fn drop(&mut self) {
         // TODO: This order could be relaxed.
+        #[cfg(undermoon_verif)]
+        crate::common::verif_sched::point("task_dec");
         self.0.fetch_sub(1, Ordering::SeqCst);
     }
 }
@@ -436,6 +450,8 @@ struct RefAutoCounter<'a>(&'a AtomicI64);
 
 impl<'a> RefAutoCounter<'a> {
     fn new(counter: &'a AtomicI64) -> Self {
+        #[cfg(undermoon_verif)]
+        crate::common::verif_sched::point("ref_inc");
         counter.fetch_add(1, Ordering::SeqCst);
         Self(counter)
     }
@@ -444,6 +460,8 @@ impl<'a> RefAutoCounter<'a> {
 impl<'a> Drop for RefAutoCounter<'a> {
     fn drop(&mut self) {
         // TODO: This order could be relaxed.
+        #[cfg(undermoon_verif)]
+        crate::common::verif_sched::point("ref_dec");
         self.0.fetch_sub(1, Ordering::SeqCst);
     }
 }
